@@ -76,6 +76,10 @@ def main():
             before = sigmod.COUNT[0]
             if step["mode"] == "check":
                 rec["value"] = repr(bool(w.check_call_in_cache(*args, **kwargs)))
+            elif step["mode"] == "force":
+                r = w.call(*args, **kwargs)           # forced execution: (output, metadata), stored like an ordinary call
+                if is_async: r = asyncio.run(r)
+                rec["value"] = repr(r[0])
             elif step["mode"] == "shelve":
                 r = w.call_and_shelve(*args, **kwargs)
                 if is_async: r = asyncio.run(r)
